@@ -95,10 +95,13 @@ def h_invalid_mode(ctx, d):
     ctx.raises(ValueError, 'right_none', teneva.orthogonalize_right, Y, None)
 
 
-def quasi_diag_tt(ctx, d, n, name='w'):
-    """Super-diagonal TT: G_k[a, i, b] = w_{k,i} [a = i = b] (boundary cores
-    accordingly).  Every unfolding of every intermediate is a generalised
-    permutation matrix, so all factorisations have closed forms."""
+def quasi_diag_tt(ctx, d, n, name='w', shift=0):
+    """Super-diagonal TT: G_k[a, i, b] = w_{k,i} [a = s_k(i), b = s_{k+1}(i)]
+    with cyclic bond permutations s_k(i) = (i + k*shift) mod n (shift = 0: the
+    plain diagonal gauge).  The tensor is super-diagonal for every shift; every
+    unfolding of every intermediate is a generalised permutation matrix, so all
+    factorisations have closed forms, but for shift != 0 the core unfoldings are
+    not symmetric (A A^T != A^T A)."""
     Y = []
     W = []
     for k in range(d):
@@ -108,7 +111,9 @@ def quasi_diag_tt(ctx, d, n, name='w'):
         w = vec(ctx, f'{name}{k}', n)
         for i in range(n):
             ctx.assume(ctx.gt(w[i], 0))
-            G[0 if k == 0 else i, i, 0 if k == d - 1 else i] = w[i]
+            a = 0 if k == 0 else (i + k * shift) % n
+            b = 0 if k == d - 1 else (i + (k + 1) * shift) % n
+            G[a, i, b] = w[i]
         Y.append(G)
         W.append(w)
     return Y, W
